@@ -95,7 +95,7 @@ func (propC16) Gen(seed uint64, ex map[string]bool) interface{} {
 	sc.Drop = pick(r, []int{0, 0, 25})
 	sc.ClockStart = pick(r, []int64{1_700_000_000, 0, -5, 1 << 33, 1, 4102444800})
 	sc.ClockStep = pick(r, []int64{0, 1e9, 1e6})
-	f := Feat{Spies: true, MapLoops: true, Include: r.P(70), Inherit: r.P(40), Macros: r.P(50), ErrorsPct: 10, Sandbox: true, SpyPrefix: "c"}
+	f := Feat{Spies: true, MapLoops: true, Include: r.P(70), Inherit: r.P(40), Macros: r.P(50), ErrorsPct: 10, Sandbox: true, SpyPrefix: "c", RelPaths: r.P(35)}
 	sc.Prog = genProgram(r, f)
 	// flat names for the disk
 	ren := map[string]string{}
